@@ -350,6 +350,9 @@ def rule_r6(p, res):
         raise AnalysisError("C04.R6: only %d invertible classes analysed (floor 15)" % n)
 
 
+# rules of sibling properties over code paths this property's statement also quantifies over (DESIGN.md section 3, shared rules)
+ALSO = ['C06.R2']
+
 RULES = [rule_r1, rule_r2, rule_r3, rule_r4, rule_r5, rule_r6]
 
 WITNESSES = [
